@@ -31,6 +31,7 @@ func checkC19(r *Report, p *Program) {
 	r12_10(r, p)
 	// every step of the transport has its error looked at, the right way round (shared with C12)
 	etagEnabledTable(r, p, "R19.8")
+	foundValuesGuarded(r, p, "R19.9")
 	errorChecksMeanWhatTheySay(r, p, "R19.7", func(f *ssa.Function) bool { return strings.Contains(FK(f), "/pkg/hooks.") })
 }
 
